@@ -84,19 +84,27 @@ def run(ck):
         tgt = F.fns.get(flushes[0].get("fn"))
         ck.ob("C11-O1", sitestr(pm, flushes[0]), tgt is not None and tgt.name == SPL + "::flush", "the flush is SimplePipeline::flush() of the logger itself", key="Logger::processMessage|flush-target")
     # ---- O2
-    fl = F.fn(SPL + "::flush")
-    rf = F.fn(SPL + "::recursiveFlush")
-    ck.touch(fl, rf)
-    gf = Graph(fl)
-    cs = [n for n in fl.calls(SPL + "::recursiveFlush") if n.get("args") and skip_copies(n["args"][0]).get("k") == "this"]
-    ok = len(cs) == 1 and gf.must_pass({gf.site_of(cs[0])})
-    ck.ob("C11-O2", sitestr(fl), ok, "flush() = recursiveFlush(this) on every path" if ok else "flush() does not always call recursiveFlush(this)", key="SimplePipeline::flush|delegation")
+    fl = F.fn(SPL + "::flush", flat=False)
+    rf = F.fn(SPL + "::recursiveFlush", optional=True, flat=False)
+    self_recursive = rf is None
+    if self_recursive:
+        # the traversal is flush() itself: it walks its own handlers and calls flush() on nested pipelines
+        rf = fl
+        ck.touch(fl)
+    else:
+        ck.touch(fl, rf)
+        gf = Graph(fl)
+        cs = [n for n in fl.calls(SPL + "::recursiveFlush") if n.get("args") and skip_copies(n["args"][0]).get("k") == "this"]
+        ok = len(cs) == 1 and gf.must_pass({gf.site_of(cs[0])})
+        ck.ob("C11-O2", sitestr(fl), ok, "flush() = recursiveFlush(this) on every path" if ok else "flush() does not always call recursiveFlush(this)", key="SimplePipeline::flush|delegation")
     g = Graph(rf)
     loops = [l for l in find_loops(rf) if l.get("k") == "rangefor"]
     ck.require(len(loops) == 1, "recursiveFlush no longer has exactly one range-for loop")
     loop = loops[0]
     rng = skip_copies(loop.get("range"))
-    okr = is_call(rng, "QtLogger::Pipeline::handlers") and is_ref_to(unwrap_ptr(rng.get("obj")), rf.params[0]["decl"])
+    if is_call(rng, ("std::as_const", "qAsConst")) and rng.get("args"):
+        rng = skip_copies(rng["args"][0])
+    okr = is_call(rng, "QtLogger::Pipeline::handlers") and ((rf.params and is_ref_to(unwrap_ptr(rng.get("obj")), rf.params[0]["decl"])) or (self_recursive and skip_copies(unwrap_ptr(rng.get("obj"))).get("k") == "this"))
     ck.ob("C11-O2", sitestr(rf, loop), okr, "the loop visits pipeline->handlers()" if okr else "the loop visits %s" % describe(rng), key="recursiveFlush|range")
     lv = decl_of_loopvar(loop)
     casts = {}
@@ -106,6 +114,13 @@ def run(ck):
             if isinstance(i, dict) and is_call(i, "QSharedPointer::dynamicCast") and is_ref_to(skip_copies(i).get("obj"), lv):
                 t = v.get("type") or ""
                 cls = "Sink" if "QtLogger::Sink>" in t else "Pipeline" if "QtLogger::Pipeline>" in t else t
+                m_ = __import__("re").search(r"QSharedPointer<(?:const )?QtLogger::(\w+)>", t)
+                if cls == t and m_ and ("QtLogger::" + m_.group(1)) in F.subclasses("QtLogger::Pipeline"):
+                    # descends only into one subclass of Pipeline: nested pipelines of the other classes are skipped
+                    others = sorted(x.split("::")[-1] for x in (F.subclasses("QtLogger::Pipeline") | {"QtLogger::Pipeline"}) - F.subclasses("QtLogger::" + m_.group(1)) - {"QtLogger::" + m_.group(1)})
+                    ck.ob("C11-O2", sitestr(rf, n), False, "nested pipelines are recognised by a cast to %s only: file sinks inside a nested %s (appendPipeline, operator<< of a Pipeline) are never flushed" % (m_.group(1), "/".join(others)),
+                          key="recursiveFlush|no-recursion")
+                    cls = "Pipeline"
                 casts[cls] = v["decl"]
     if set(casts) != {"Sink", "Pipeline"}:
         ck.ob("C11-O2", sitestr(rf), False if "Sink" not in casts or "Pipeline" not in casts else None, "recursiveFlush distinguishes %s (Sink and Pipeline expected): %s are not flushed" % (sorted(casts), sorted({"Sink", "Pipeline"} - set(casts))),
@@ -113,6 +128,8 @@ def run(ck):
         return
     sflush = [n for n in rf.calls("QtLogger::Sink::flush") if n.get("virtual") and is_ref_to(unwrap_ptr(n.get("obj")), casts["Sink"])]
     rec = [n for n in rf.calls(SPL + "::recursiveFlush") if n.get("args") and is_ref_to(unwrap_ptr(n["args"][0]), casts["Pipeline"])]
+    if self_recursive:
+        rec = [n for n in rf.calls() if name_is(n.get("callee"), "flush") and n.get("ck") == "member" and is_ref_to(unwrap_ptr(n.get("obj")), casts["Pipeline"])]
     cond = g.site_of(loop["desugar"]["cond"])
     lvs = g.site_of(loop["desugar"]["loopVarStmt"])
     isS = lambda n: n.get("k") == "ref" and n.get("decl") == casts["Sink"]
